@@ -148,6 +148,11 @@ func explicitConstraintType(typeParam *types.Var) (t types.Type) {
 			return t.Term(0).Type()
 		}
 	}
+	// comparable (alone or embedded) cannot itself be used as a type argument
+	// of the self-check; any comparable type satisfies it
+	if underlying.IsComparable() && underlying.NumMethods() == 0 {
+		return types.Typ[types.Int]
+	}
 	return nil
 }
 
